@@ -410,7 +410,14 @@ pub fn run(a: &Args, m: &mut Mon) {
         let nn = match r.below(10) {
             0 => 1,
             1..=7 => r.usize(2, 8),
-            _ => r.usize(9, 100),
+            _ => {
+                if k % 64 == 9 {
+                    m.count("very_long_functions");
+                    r.usize(500, 5000)
+                } else {
+                    r.usize(9, 100)
+                }
+            }
         };
         let (ends, _c) = gen_ends_any(&mut r, nn);
         m.count("rec_functions");
